@@ -72,9 +72,15 @@ def oracle(root, args):
     K, C, L, U = {}, {}, {}, []
     ids = {}
 
+    explored = {}
+
     def visit(p, anc):
-        if p in K or len(anc) > 40:
+        # what the file system says about a path does not depend on how it was reached, but which paths below it can be asked for does:
+        # a path is explored again when it is reached with fewer directories on the way than ever before
+        cur = frozenset(anc)
+        if any(e <= cur for e in explored.get(p, ())) or len(anc) > 40:
             return
+        explored.setdefault(p, []).append(cur)
         full = os.path.join(root, p)
         if os.path.isdir(full):
             K[p] = "d"
